@@ -259,7 +259,7 @@ def global_state_census(rep):
     r2 = set(idmod.get_reserved_words())
     fd = repo.find_function('mindsdb_sql.parser.ast.select.identifier', 'get_reserved_words')
     muts = [n for n in ast.walk(fd) if isinstance(n, ast.Call) and isinstance(n.func, ast.Attribute) and n.func.attr in frames.MUTATORS]
-    only_add = all(n.func.attr == 'add' for n in muts)
+    only_add = all(n.func.attr in ('add', 'update') for n in muts)          # the mutators that can only grow a set
     # history independence of the added values: the function has no parameters and every free name it reads is a module, a class, a function,
     # a compiled constant or RESERVED_KEYWORDS itself (names bound inside the function - imports, loop variables, assignments - are local)
     import builtins, types
